@@ -26,12 +26,17 @@ class TlcResult(object):
         self.raw = ''
         self.wall = 0.0
         self.coverage = {}       # action name -> (distinct, total) when -coverage was on
+        self.thinned = 1         # 1 = every emitted value was kept
 
 
 def run_tlc(module, cfg_text=None, cfg_file=None, workers=8, simulate=None, depth=None, seed=None,
             timeout=1800, env=None, extra=None, coverage=False, deadlock=False, heap='4g', keep=False,
-            spec_dir=None, extra_files=None):
-    """Run TLC on spec/<module>.tla with the given configuration text."""
+            spec_dir=None, extra_files=None, thin_key=None, thin_cap=None):
+    """Run TLC on spec/<module>.tla with the given configuration text.  The output is read as a stream: the values TLC
+    prints with the "@@" prefix are parsed one by one and never held as text.  thin_key / thin_cap bound what is kept of
+    them: when more than thin_cap values have arrived, only those whose thin_key hashes to 0 modulo m stay (m doubles each
+    time the cap is hit again), so that values sharing a key - the alternative outcomes of one case - stay or go together;
+    res.thinned is the final m."""
     sd = spec_dir or SPEC_DIR
     work = tempfile.mkdtemp(prefix='vtlc-', dir='/dev/shm' if os.path.isdir('/dev/shm') else None)
     res = TlcResult()
@@ -70,14 +75,49 @@ def run_tlc(module, cfg_text=None, cfg_file=None, workers=8, simulate=None, dept
         if env:
             e.update(env)
         t0 = time.time()
+        import hashlib
+        import threading
+        p = subprocess.Popen(cmd, cwd=work, env=e, stdout=subprocess.PIPE, stderr=subprocess.STDOUT)
+        timed_out = [False]
+
+        def _kill():
+            timed_out[0] = True
+            try:
+                p.kill()
+            except OSError:
+                pass
+        timer = threading.Timer(timeout, _kill)
+        timer.start()
+        other = []
+        m = 1
+
+        def _h(v):
+            return int(hashlib.sha1(json.dumps(thin_key(v), sort_keys=True).encode()).hexdigest()[:8], 16)
         try:
-            p = subprocess.run(cmd, cwd=work, env=e, stdout=subprocess.PIPE, stderr=subprocess.STDOUT, timeout=timeout)
-            out = p.stdout.decode('utf-8', 'replace')
-            rc = p.returncode
-        except subprocess.TimeoutExpired as ex:
-            out = (ex.stdout or b'').decode('utf-8', 'replace')
+            for bline in p.stdout:
+                line = bline.decode('utf-8', 'replace').rstrip('\n')
+                if line.startswith('"@@'):
+                    try:
+                        v = json.loads(json.loads(line)[2:])
+                    except ValueError:
+                        res.lines.append(line)
+                        continue
+                    if thin_key is not None and m > 1 and _h(v) % m != 0:
+                        continue
+                    res.emitted.append(v)
+                    if thin_key is not None and thin_cap and len(res.emitted) > thin_cap:
+                        m *= 2
+                        res.emitted = [x for x in res.emitted if _h(x) % m == 0]
+                    continue
+                other.append(line)
+            rc = p.wait()
+        finally:
+            timer.cancel()
+        if timed_out[0]:
             rc = -1
             res.error = 'timeout'
+        res.thinned = m
+        out = '\n'.join(other)
         res.wall = time.time() - t0
         res.raw = out
         parse_output(res, out)
